@@ -359,6 +359,63 @@ func c09Supersede(c *h.Ctx) {
 			return
 		}
 	}
+	// the very same set-up announced again (same game count, same participants) also supersedes the unfinished one:
+	// the signals given before it no longer count, and after a completed one it is a new round that fires once more
+	for k := 0; k < 12 && !c.Failed(); k++ {
+		g := newGate(0)
+		n := 2 + r.Intn(5)
+		ids := idsN(n, "r")
+		parts := partsMap(ids)
+		prefix := 1 + r.Intn(n) // 1..n signals before the repeated set-up (n = the first one had fired already)
+		atomic.StoreInt64(&g.issued, 0)
+		g.m.Setup(7, parts)
+		for _, id := range ids[:prefix] {
+			atomic.AddInt64(&g.issued, 1)
+			g.m.Ready(id)
+		}
+		firesBefore := 0
+		if prefix == n {
+			if !g.waitFires(1, 5*time.Second) {
+				c.Violate("C09/never-fired", "set-up complete but no callback within 5 s", map[string]interface{}{"participants": ids})
+				return
+			}
+			firesBefore = 1
+		}
+		w := map[string]interface{}{"participants": ids, "signalled_before_the_repeated_set_up": prefix}
+		atomic.StoreInt64(&g.issued, 0)
+		g.m.Setup(7, partsMap(ids))
+		gens += 2
+		for id, p := range g.m.GetState().Participants {
+			if p.IsReady {
+				c.Violate("C09/repeated-set-up-kept-ready-flags", fmt.Sprintf("right after the repeated set-up participant %s is reported ready", id), w)
+				return
+			}
+		}
+		order := append([]string{}, ids...)
+		r.Shuffle(len(order), func(i, j int) { order[i], order[j] = order[j], order[i] })
+		for i, id := range order {
+			time.Sleep(100 * time.Microsecond)
+			if g.nfires() != firesBefore {
+				c.Violate("C09/fired-before-all-ready", fmt.Sprintf("the same set-up was announced again after %d signals; the gate fired after only %d of %d new signals", prefix, i, n), w)
+				return
+			}
+			atomic.AddInt64(&g.issued, 1)
+			if err := g.m.Ready(id); err != nil {
+				c.Violate("C09/known-participant-rejected", fmt.Sprintf("Ready(%s) -> %v", id, err), w)
+				return
+			}
+		}
+		if !g.waitFires(firesBefore+1, 5*time.Second) {
+			c.Violate("C09/never-fired", fmt.Sprintf("the same set-up was announced again (the first had fired: %v); everybody signalled again and no callback came within 5 s", firesBefore == 1), w)
+			return
+		}
+		time.Sleep(300 * time.Microsecond)
+		if g.nfires() != firesBefore+1 {
+			c.Violate("C09/fired-more-than-once", fmt.Sprintf("%d callbacks", g.nfires()), w)
+			return
+		}
+		c.Feature("same-set-up-announced-again")
+	}
 	// the same with a timeout configured: the superseded set-up's timeout must not fire it later either
 	{
 		const K = 12
@@ -588,6 +645,62 @@ func c09Rebuild(c *h.Ctx) {
 			c.Feature("rebuild:mixed-ready-state")
 		}
 	}
+	// the rebuilt gate runs on the options it was rebuilt with, also for every later set-up: the snapshot came from a
+	// gate with another timeout (none / 3 s), the rebuilt one is configured with 1 s
+	{
+		var wg sync.WaitGroup
+		var mu sync.Mutex
+		for _, snapTimeout := range []int{0, 3} {
+			wg.Add(1)
+			go func(snapTimeout int) {
+				defer wg.Done()
+				g := newGate(snapTimeout)
+				ids := idsN(3, "o")
+				g.m.Setup(70, partsMap(ids))
+				g.m.Ready(ids[0])
+				raw, _ := json.Marshal(g.m.GetState())
+				var saved ogm.OpenGameState
+				json.Unmarshal(raw, &saved)
+				g2 := &gateRig{}
+				g2.m = ogm.NewOpenGameManagerFromState(saved, ogm.OpenGameOption{Timeout: 1, OnOpenGameReady: g2.onReady})
+				atomic.StoreInt64(&g2.issued, 3)
+				g2.m.Ready(ids[1])
+				g2.m.Ready(ids[2])
+				ok1 := g2.waitFires(1, 5*time.Second)
+				start := h.Mono()
+				atomic.StoreInt64(&g2.issued, 0)
+				g2.m.Setup(71, partsMap(ids)) // a later set-up on the rebuilt gate; one participant never signals
+				atomic.AddInt64(&g2.issued, 2)
+				g2.m.Ready(ids[0])
+				g2.m.Ready(ids[1])
+				ok2 := g2.waitFires(2, 6*time.Second)
+				mu.Lock()
+				defer mu.Unlock()
+				if c.Failed() {
+					return
+				}
+				w := map[string]interface{}{"snapshot_timeout": snapTimeout, "rebuilt_with_timeout": 1}
+				if !ok1 {
+					c.Violate("C09/rebuilt-gate-never-fired", "rebuilt gate did not fire after the remaining signals", w)
+					return
+				}
+				if !ok2 {
+					c.Violate("C09/never-fired-after-timeout/later-set-up-on-rebuilt-gate", fmt.Sprintf("gate rebuilt with a 1 s timeout from a snapshot taken at timeout %d: a later set-up with one participant silent has not fired 6 s after it", snapTimeout), w)
+					return
+				}
+				g2.mu.Lock()
+				f := g2.fires[1]
+				g2.mu.Unlock()
+				if el := time.Duration(f.mono - start); el < 995*time.Millisecond || el > 2500*time.Millisecond {
+					c.Violate("C09/timeout-of-rebuilt-gate-not-the-configured-one", fmt.Sprintf("gate rebuilt with a 1 s timeout from a snapshot taken at timeout %d: a later set-up with one participant silent fired after %v", snapTimeout, el), w)
+					return
+				}
+				c.Feature("rebuild:later-set-up-uses-configured-timeout")
+			}(snapTimeout)
+		}
+		wg.Wait()
+		gens += 4
+	}
 	c.Count("generations", int64(gens))
 	c.Feature("rebuild-from-saved-state")
 	c.Nontrivial()
@@ -654,7 +767,7 @@ func init() {
 			return map[string]int{"quick": 60, "thorough": 1000}[tier]
 		},
 		RequiredFeatures: func(string) []string {
-			return []string{"orders:exhaustive<=4", "orders:random-5..10", "timeout-path", "supersede-unfinished", "supersede-unfinished-with-timeout", "rebuild-from-saved-state", "rebuild:mixed-ready-state", "concurrent-signals", "re-set-up-right-after-completion"}
+			return []string{"orders:exhaustive<=4", "orders:random-5..10", "timeout-path", "supersede-unfinished", "supersede-unfinished-with-timeout", "rebuild-from-saved-state", "rebuild:mixed-ready-state", "concurrent-signals", "re-set-up-right-after-completion", "same-set-up-announced-again", "rebuild:later-set-up-uses-configured-timeout"}
 		},
 		CaseTimeout: 200e9,
 		InProc:      3,
